@@ -8,7 +8,9 @@ package main
 
 import (
 	"encoding/hex"
+	"encoding/json"
 	"fmt"
+	wasmvmtypes "github.com/CosmWasm/wasmvm/types"
 	"math/big"
 	"math/rand"
 	"reflect"
@@ -321,6 +323,34 @@ func runMsgs(seed int64, histories, steps int, out *Emitter) {
 				out.Count("query.oracle."+kind, resp != "err")
 			}
 		}
+		// (b') the network restarts from its own exported genesis: the feeds and the deposit parameter must come back
+		// as they were, and the oracle genesis model must export what the chain exported
+		{
+			pre := c.oracleAbs(users)
+			if e, p := c.Restart(6 * time.Second); e != "" || p != nil {
+				out.Emit(map[string]interface{}{"mod": "panic", "where": "restart", "hist": hi, "i": steps, "h": c.H, "panic": fmt.Sprint(e, p)})
+			} else {
+				post := c.oracleAbs(users)
+				var gj interface{}
+				var app map[string]json.RawMessage
+				if json.Unmarshal(c.LastExport, &app) == nil {
+					var gs oracletypes.GenesisState
+					if err := c.A.AppCodec().UnmarshalJSON(app[oracletypes.ModuleName], &gs); err == nil {
+						feeds := []interface{}{}
+						for _, f := range gs.FeedList {
+							feeds = append(feeds, map[string]interface{}{"owner": f.Owner, "data": f.Data, "lastUpdate": f.LastUpdate.UnixNano(), "name": f.Name})
+						}
+						var dep interface{}
+						if _, err := sdk.AccAddressFromBech32(gs.Params.Deposit); err == nil {
+							dep = gs.Params.Deposit
+						}
+						gj = map[string]interface{}{"params": map[string]interface{}{"deposit": dep}, "feedList": feeds, "validateOk": gs.Validate() == nil}
+					}
+				}
+				out.Emit(map[string]interface{}{"mod": "oracle", "hist": hi, "i": steps, "h": c.H, "now": c.T.UnixNano(), "pre": pre, "op": "restart", "ok": true, "post": post, "genesis": gj})
+				out.Count("oracle.restart", true)
+			}
+		}
 		// (c) the wasm route into the storage message server: a contract may post storage files only in its own
 		// name, and what it posts is handled exactly like the same MsgPostFile delivered directly (paid once when
 		// Expires > 0, against the contract's plan otherwise).  Two of the four callers hold a plan, so that both
@@ -368,7 +398,11 @@ func runMsgs(seed int64, histories, steps int, out *Emitter) {
 					}
 				}()
 				cctx, write := c.Ctx().CacheContext()
-				if err := wasmbinding.PerformPostFile(&c.A.StorageKeeper, cctx, contract, pf); err != nil {
+				// the real entry point: the custom messenger decodes the contract's JSON message and dispatches it
+				// (the wasm module commits what a dispatch that returns no error wrote)
+				custom, _ := json.Marshal(map[string]interface{}{"post_file": pf})
+				messenger := wasmbinding.CustomMessageDecorator(&c.A.FileTreeKeeper, &c.A.StorageKeeper)(nil)
+				if _, _, err := messenger.DispatchMsg(cctx, contract, "", wasmvmtypes.CosmosMsg{Custom: custom}); err != nil {
 					okc, errs = false, err.Error()
 				} else {
 					write()
